@@ -62,6 +62,10 @@ pub struct Work {
     /// how the roots are spelled when handed to the watcher: 0 as canonicalised, 1 with a trailing '/', 2 with a trailing "/."
     #[serde(default)]
     pub root_spelling: u8,
+    /// end-to-end variant: no probe; a real cache over the FileSystem source, assets for files and directories, and the
+    /// set of values / listings that changed after hot_reload is the observation
+    #[serde(default)]
+    pub end_to_end: bool,
 }
 
 fn kind_of(k: NK) -> Option<EventKind> {
@@ -141,7 +145,7 @@ impl Property for C12 {
     fn info(&self) -> PropInfo {
         PropInfo {
             level: "exploration",
-            rule: "a run is non-trivial when the real handler chain received at least one create / rename / delete notification for an entry below a watched root (so that both the entry and its parent had to be named) and at least one notification that must produce nothing (outside every root, not expressible as an id, Access / Other / error)",
+            rule: "a run is non-trivial when the real handler chain received at least one create / rename / delete notification for an entry below a watched root (so that both the entry and its parent had to be named) and at least one notification that must produce nothing (outside every root, not expressible as an id, Access / Other / error); or, in the end-to-end variant, at least one real operation was followed by hot_reload and the comparison of every cached file asset and directory listing with the directory",
             real: &["src/hot_reloading/watcher.rs (FsWatcherBuilder, EventHandlerPayload, NotifyEventHandler, id_of_path)", "src/utils/private.rs (IdBuilder, extension_of, path_of_entry)", "src/source/filesystem.rs (path_of)", "notify's event types (real crate); a real scratch directory (the handler calls Path::is_dir)"],
             stub: &["notify back-end (inotify): the simulator delivers notify::Event values to the registered handler on a simulated watcher thread, for real operations done on the scratch directory and for synthetic notifications of every kind", "the receiving end of the EventSender is the probe of hook H7"],
             assumptions: &["the stub delivers, per operation, the event kinds notify 6.1.1's inotify back-end produces (create: Create(File|Folder); write: Modify(Data); rename: Modify(Name(From)) then Modify(Name(To)); delete: Remove(File|Folder))", "id <-> path round trip is a pure function of its input: exercised as generated data, not decided by scheduling"],
@@ -244,7 +248,7 @@ impl Property for C12 {
             };
             steps.push(s);
         }
-        (knobs, serde_json::to_value(Work { initial, second_root, steps, root_spelling: if g.chance(1, 3) { 1 + g.below(2) as u8 } else { 0 } }).unwrap())
+        (knobs, serde_json::to_value(Work { initial, second_root, steps, root_spelling: if g.chance(1, 3) { 1 + g.below(2) as u8 } else { 0 }, end_to_end: g.chance(1, 4) }).unwrap())
     }
     fn execute(&self, case: &Case) -> Outcome {
         let w: Work = serde_json::from_value(case.work.clone()).unwrap();
@@ -253,7 +257,7 @@ impl Property for C12 {
         crate::world::reset_run();
         let r = detsim::run(cfg, move || scenario(w));
         let c = |k: &str| r.counters.get(k).copied().unwrap_or(0) > 0;
-        let nontrivial = c("reach.entry_and_parent_expected") && c("reach.notification_that_must_produce_nothing");
+        let nontrivial = (c("reach.entry_and_parent_expected") && c("reach.notification_that_must_produce_nothing")) || c("reach.end_to_end_step");
         outcome_from(r, nontrivial, shape, |f| f.rule())
     }
     fn shrink(&self, work: &Value) -> Vec<Value> {
@@ -297,6 +301,130 @@ fn form(root: &Path, rel: &str, f: PathForm) -> PathBuf {
     }
 }
 
+/// File asset for the end-to-end variant: its value is the exact content; extensions "x" then "y".
+pub struct FileXY(pub Vec<u8>, pub String);
+pub struct RawLoader;
+impl assets_manager::loader::Loader<FileXY> for RawLoader {
+    fn load(content: std::borrow::Cow<[u8]>, ext: &str) -> Result<FileXY, assets_manager::BoxedError> {
+        Ok(FileXY(content.to_vec(), ext.to_string()))
+    }
+}
+impl assets_manager::Asset for FileXY {
+    const EXTENSIONS: &'static [&'static str] = &["x", "y"];
+    type Loader = RawLoader;
+}
+
+/// End to end: real operations on the scratch directory, the notifications inotify would send for them, hot_reload,
+/// and then every cached file asset / directory listing must equal what the directory holds now.
+fn end_to_end(w: &Work, root: &Path) {
+    use assets_manager::AssetCache;
+    let cache = AssetCache::new(root).expect("AssetCache::new");
+    let widx = detsim::notify_stub::watcher_count() - 1;
+    let deliver = |kind: NK, p: PathBuf| {
+        let ev = Event::new(kind_of(kind).unwrap()).add_path(p);
+        detsim::thread::spawn_named("notify-backend".into(), move || {
+            notify::sim_deliver(widx, Ok(ev));
+        })
+        .join()
+        .unwrap();
+    };
+    // what a fresh look at the directory gives
+    let listing = |dir_id: &str| -> Option<Vec<String>> {
+        let p = if dir_id.is_empty() { root.to_path_buf() } else { root.join(dir_id.replace('.', "/")) };
+        let mut ids: Vec<String> = std::fs::read_dir(&p).ok()?.flatten().filter(|e| e.path().is_file()).filter_map(|e| {
+            let name = e.file_name().to_str()?.to_string();
+            let (stem, ext) = name.rsplit_once('.')?;
+            if (ext == "x" || ext == "y") && !stem.contains('.') {
+                Some(if dir_id.is_empty() { stem.to_string() } else { format!("{dir_id}.{stem}") })
+            } else {
+                None
+            }
+        }).collect();
+        ids.sort();
+        ids.dedup();
+        Some(ids)
+    };
+    let dirs: Vec<String> = std::iter::once(String::new()).chain(w.initial.iter().filter(|p| p.ends_with('/')).map(|p| p.trim_end_matches('/').replace('/', "."))).filter(|d| !d.split('.').any(|c| c.contains(' ') && false)).collect();
+    let mut loaded_dirs: Vec<String> = vec![];
+    let mut loaded_files: Vec<String> = vec![];
+    for d in &dirs {
+        if cache.load_dir::<FileXY>(d).is_ok() {
+            loaded_dirs.push(d.clone());
+            for id in listing(d).unwrap_or_default() {
+                if cache.load::<FileXY>(&id).is_ok() {
+                    loaded_files.push(id);
+                }
+            }
+        }
+    }
+    // An asset whose reload failed keeps the dependencies of its last successful load (C05), so once an id had no file
+    // at all it may legitimately miss a later file with another extension: such ids are no longer compared.
+    let tainted = std::cell::RefCell::new(std::collections::BTreeSet::<String>::new());
+    let verify = |what: &str| {
+        for d in &loaded_dirs {
+            if let (Some(h), Some(exp)) = (cache.get_cached::<assets_manager::Directory<FileXY>>(d), listing(d)) {
+                let got: Vec<String> = h.read().ids().map(|s| s.to_string()).collect();
+                detsim::check(got == exp, "C12/end-to-end/stale-directory", || format!("{what}: load_dir({d:?}) lists {got:?} after hot_reload, the directory holds {exp:?}"));
+            }
+        }
+        for id in &loaded_files {
+            if let Some(h) = cache.get_cached::<FileXY>(id) {
+                let rel = id.replace('.', "/");
+                let on_disk = ["x", "y"].iter().find_map(|e| std::fs::read(root.join(format!("{rel}.{e}"))).ok().map(|b| (b, e.to_string())));
+                if on_disk.is_none() {
+                    tainted.borrow_mut().insert(id.clone());
+                }
+                if tainted.borrow().contains(id) {
+                    continue;
+                }
+                if let Some((bytes, ext)) = on_disk {
+                    let g = h.read();
+                    detsim::check(g.0 == bytes && g.1 == ext, "C12/end-to-end/stale-file", || format!("{what}: {id} holds {:?} (.{}) after hot_reload, the first of {id}.x / {id}.y on disk is {:?} (.{ext})", String::from_utf8_lossy(&g.0), g.1, String::from_utf8_lossy(&bytes)));
+                }
+            }
+        }
+    };
+    for (i, step) in w.steps.iter().enumerate() {
+        match step {
+            Step::CreateFile(rel) => {
+                let p = root.join(rel);
+                std::fs::write(&p, format!("created {i}")).unwrap();
+                deliver(NK::CreateFile, p);
+            }
+            Step::CreateDir(rel) => {
+                let p = root.join(rel.trim_end_matches('/'));
+                std::fs::create_dir_all(&p).unwrap();
+                deliver(NK::CreateFolder, p);
+            }
+            Step::Write(rel) => {
+                let p = root.join(rel);
+                std::fs::write(&p, format!("edit {i}")).unwrap();
+                deliver(NK::ModifyData, p);
+            }
+            Step::Rename(from, to) => {
+                let (pf, pt) = (root.join(from), root.join(to));
+                std::fs::rename(&pf, &pt).unwrap();
+                deliver(NK::RenameFrom, pf);
+                deliver(NK::RenameTo, pt);
+            }
+            Step::Remove(rel) => {
+                let p = root.join(rel.trim_end_matches('/'));
+                let was_dir = p.is_dir();
+                if was_dir {
+                    std::fs::remove_dir(&p).unwrap();
+                } else {
+                    std::fs::remove_file(&p).unwrap();
+                }
+                deliver(if was_dir { NK::RemoveFolder } else { NK::RemoveFile }, p);
+            }
+            _ => continue,
+        }
+        cache.hot_reload();
+        detsim::count("reach.end_to_end_step");
+        verify(&format!("step {i} {step:?}"));
+    }
+}
+
 fn scenario(w: Work) {
     let base = scratch_base();
     let dir = base.join(format!("simcheck-c12-{}-{}", std::process::id(), DIRNO.fetch_add(1, Ordering::Relaxed)));
@@ -314,6 +442,10 @@ fn scenario(w: Work) {
         }
     }
     let root = root.canonicalize().unwrap();
+    if w.end_to_end {
+        end_to_end(&w, &root);
+        return;
+    }
     let mut roots = vec![root.clone()];
     if !w.second_root.is_empty() && root.join(&w.second_root).is_dir() {
         roots.push(root.join(&w.second_root));
